@@ -498,6 +498,29 @@ def obs_to_gallina(ob, exc, nwarn):
 # ---------------------------------------------------------------------------------------------
 # one history
 
+def gen_scenario(rng, nodes, eids):
+    """A scripted opening for a share of the generated histories: interactions that independent random choices
+    meet too rarely.  Duplicate groups under explicit ids are merged, the same ids are used again for a new group
+    and merged again - with rename="tuple" the merged id then already exists, with "first" / "new" it may."""
+    ids = rng.sample(eids, min(len(eids), rng.randint(2, 3)))
+    def group():
+        ms = [rng.choice(nodes) for _ in range(rng.randint(1, 3))]
+        extra = [(rng.choice(eids + [99]), [rng.choice(nodes) for _ in range(rng.randint(1, 3))])] if rng.random() < 0.4 else []
+        d = {}
+        for k, v in [(i, list(ms)) for i in ids] + extra:
+            d.setdefault(k, v)
+        return ("add_edges_from", 5, list(d.items()), {})
+    def merge():
+        return ("merge_duplicate_edges", rng.choice(["tuple", "tuple", "first", "new"]),
+                rng.choice(["first", "union", "intersection"]), rng.choice([None, "multiplicity"]))
+    ops = [group(), merge(), group(), merge()]
+    if rng.random() < 0.3:
+        ops += [group(), merge()]
+    return ops
+
+SCENARIO_SHARE = 0.08
+
+
 def run_history(ops_or_gen, length=None, rng=None, style=None, malformed=False, freeze_at=None):
     """Execute a history.  ops_or_gen is either a list of ops (replay) or None (generate `length`
     ops with rng).  Returns dict(ops, extras, obs, excs, warns, gallina or None, unsupported)."""
@@ -507,10 +530,17 @@ def run_history(ops_or_gen, length=None, rng=None, style=None, malformed=False, 
         nodes, eids = make_pool(rng, style)
     rec = {"ops": [], "extras": [], "obs": [], "excs": [], "warns": [], "unsupported": None}
     n = length if ops_or_gen is None else len(ops_or_gen)
+    script = []
+    if ops_or_gen is None and PRESENT is None and freeze_at is None and rng.random() < SCENARIO_SHARE:
+        script = gen_scenario(rng, nodes, eids)
+        n = max(n, len(script) + 2)
     for i in range(n):
         if freeze_at is not None and i == freeze_at:
             H.freeze()
-        op = _norm(gen_op(rng, H, nodes, eids, malformed)) if ops_or_gen is None else ops_or_gen[i]
+        if i < len(script):
+            op = script[i]
+        else:
+            op = _norm(gen_op(rng, H, nodes, eids, malformed)) if ops_or_gen is None else ops_or_gen[i]
         if ops_or_gen is None and PRESENT is not None:
             # sorted() over ids of mixed kinds is where a numpy integer legitimately behaves unlike an int
             # (numpy compares it elementwise with a tuple instead of raising TypeError): the presentation batch,
